@@ -25,6 +25,45 @@ BOUNDED_TYPES = {
 }
 
 
+def _variant_hop(facts, path, sites):
+    """A self-call that hops to another variant's arm once: every call site lies in the arm for variant X of a match on the
+    receiver (argument 1), passes a receiver built on the spot as variant Y != X of the same enum, and the arm for Y contains no
+    self-call. The depth of such a recursion is 2 whatever the data."""
+    f = facts.fns.get(path)
+    if f is None or f.argc < 1:
+        return None
+    ty = (f.locals[1] or "").replace("&mut ", "").replace("&", "").strip()
+    if ty not in facts.adts:
+        return None
+    sws = [sw for sw in disc_switches(facts, f, ty) if sw["place"]["l"] == 1 or f.origin({"copy": sw["place"]})[0] == "arg"]
+    if not sws:
+        return None
+    sw = sws[0]
+    self_blocks = {bb for bb, t, k in sites}
+    hops = []
+    for bb, t, k in sites:
+        if not isinstance(t, dict) or not t.get("args"):
+            return None
+        x = [v for v in sw["arms"] if bb in arm_region(f, sw, v)]
+        if len(x) != 1:
+            return None
+        o = f.origin(t["args"][0])
+        if o[0] == "rv" and o[1]["rv"]["k"] == "ref":
+            o = f.origin({"copy": o[1]["rv"]["place"]})
+        if not (o[0] == "rv" and o[1]["rv"]["k"] == "agg" and o[1]["rv"].get("adt") == ty):
+            return None
+        y = o[1]["rv"].get("variant")
+        if y == x[0] or y not in sw["arms"]:
+            return None
+        if arm_region(f, sw, y) & self_blocks or not arm_region(f, sw, y):
+            return None
+        hops.append((x[0], y))
+    if not hops:
+        return None
+    return "the call sits in the %s arm and passes a receiver built as %s, whose arm does not recurse (depth 2)" % (
+        "/".join(sorted({h[0] for h in hops})), "/".join(sorted({h[1] for h in hops})))
+
+
 def r19a(ctx, rep):
     facts, cg = ctx["facts"], ctx["cg"]
     rep.rule("R19a", "recursion inventory: every strongly connected component of the workspace call graph (with "
@@ -63,8 +102,11 @@ def r19a(ctx, rep):
                 edge = "R19a|%s -> %s" % (short_path(a), short_path(b))
                 key = "%s|%d" % (edge, listed[edge] if n <= listed.get(edge, 0) else n)
                 locs = [t["loc"] for bb, t, k in sites if isinstance(t, dict) and "loc" in t]
+                hop = None if why or a != b else _variant_hop(facts, a, sites)
                 if why:
                     rep.ok("R19a", key, "recursion %s -> %s is bounded: %s" % (short_path(a), short_path(b), why), locs)
+                elif hop:
+                    rep.ok("R19a", key, "recursion %s -> %s is bounded: %s" % (short_path(a), short_path(b), hop), locs)
                 else:
                     rep.fail("R19a", key, "native recursion %s -> %s (%d site(s), cycle of %d function(s)): depth follows "
                              "the nesting of the data, so a datum/expression nested 10^5 deep exhausts the native stack "
